@@ -7,9 +7,34 @@ pub fn compile(
     kerns: &[FixWord],
     entry_points: &HashMap<Char, u16>,
 ) -> (CompiledProgram, Vec<InfiniteLoopError>) {
+    compile_impl(program, design_size, kerns, entry_points, false)
+}
+
+/// Compile the program the way tftopl analyses it, including its phantom ligature bug.
+pub fn compile_tftopl_compatible(
+    program: &lang::Program,
+    design_size: FixWord,
+    kerns: &[FixWord],
+    entry_points: &HashMap<Char, u16>,
+) -> (CompiledProgram, Vec<InfiniteLoopError>) {
+    compile_impl(program, design_size, kerns, entry_points, true)
+}
+
+fn compile_impl(
+    program: &lang::Program,
+    design_size: FixWord,
+    kerns: &[FixWord],
+    entry_points: &HashMap<Char, u16>,
+    tftopl_phantom_ligatures: bool,
+) -> (CompiledProgram, Vec<InfiniteLoopError>) {
     let pair_to_instruction = build_node_to_program_start_map(program, entry_points);
-    let (replacements, infinite_loop_errors) =
-        calculate_replacements(program, design_size, kerns, pair_to_instruction);
+    let (replacements, infinite_loop_errors) = calculate_replacements(
+        program,
+        design_size,
+        kerns,
+        pair_to_instruction,
+        tftopl_phantom_ligatures,
+    );
     let program = CompiledProgram {
         right_boundary_char: program.right_boundary_char,
         replacements: replacements
@@ -164,6 +189,7 @@ fn calculate_replacements(
     design_size: FixWord,
     kerns: &[FixWord],
     pair_to_instruction: HashMap<Node, usize>,
+    tftopl_phantom_ligatures: bool,
 ) -> (HashMap<Node, Replacement>, Vec<InfiniteLoopError>) {
     let mut result: HashMap<Node, Replacement> = Default::default();
     let mut actionable: Vec<OngoingCalculation> = vec![];
@@ -172,9 +198,11 @@ fn calculate_replacements(
         let Node(left, right) = pair;
         let operation = program.instructions[index].operation;
         let operation = match operation {
-            lang::Operation::EntrypointRedirect(u, _) => {
-                // This reimplements the phantom ligature bug in tftopl.
-                // TODO: in tfmtools don't reimplement these bugs.
+            lang::Operation::EntrypointRedirect(u, _) if tftopl_phantom_ligatures => {
+                // This reimplements the phantom ligature bug in tftopl. It is only
+                // wanted when validating a .tfm file the way tftopl does: TeX itself
+                // never executes an instruction whose skip byte exceeds 128
+                // (TeX.2021.1039), so a program that is going to be run must not either.
                 let [op_byte, remainder] = u.to_be_bytes();
                 lang::Operation::lig_kern_operation_from_bytes(op_byte, remainder)
             }
